@@ -3,7 +3,7 @@
 import glob, json, os
 print('| id | file | what it needs in order to manifest | caught by | first violation reported |')
 print('|---|---|---|---|---|')
-for d in sorted(glob.glob('/verif/seeded/*')):
+for d in sorted(d for d in glob.glob('/verif/seeded/*') if os.path.isdir(d)):
     m = json.load(open(d + '/meta.json'))
     files = ', '.join(f.replace('brax/', '') for f in m.get('files', []))
     needs = (m.get('needs') or '').replace('\n', ' ').replace('|', '/')
